@@ -2,6 +2,7 @@ package drv
 
 import (
 	"encoding/json"
+	"errors"
 	"fmt"
 	"hash/fnv"
 	"os"
@@ -448,6 +449,14 @@ func (w *World) Stop(kind string) error {
 	}
 	res, err := w.Do(proto.Cmd{Op: op})
 	if err != nil {
+		if kind != "kill" && errors.Is(err, ErrChildDied) {
+			// The process died while executing the shutdown sequence (e.g. a background
+			// sweep touching a store that shutdown had already closed).  The server was
+			// going down anyway: for the run this is an abrupt stop, not a verdict.
+			w.Stats.Probe("died-during-clean-shutdown")
+			w.Stats.Faults["restart-clean-died"]++
+			return nil
+		}
 		return err
 	}
 	if kind != "kill" {
